@@ -1121,8 +1121,10 @@ def pn_history_case(ctx, am, i):
                     with cpu_limit(SOLVE_STEP_CPU):
                         pn.solve(x=xn, disregistry=d0.copy(), tau=st['tau'], alpha=st['alpha_in'], beta=st['beta'], cutofflongrange=st['cutoff'],
                                  min_method='Powell', min_options=dict(maxiter=1), **fl)
-                except CpuLimit as e:
-                    rec.fail(f'one Powell sweep over 10 unknowns on a 7-point grid finishes within {SOLVE_STEP_CPU} s of CPU time (normal: about 1 s)', 'hist:pn:solve-kwargs:cpu-limit', exception=e)
+                except CpuLimit:
+                    # a watchdog, not a clause of the property: nothing is concluded from a solve that was cut short
+                    # (the floors on completed solves turn too many of these into INCONCLUSIVE)
+                    rec.count('watchdog:hist:pn:solve-kwargs:cpu-limit')
                     return
                 c2 = 'solve(x=, disregistry=, tau=, ...) on a used object stores the settings it was given: '
                 rec.close(0, pn.tau, st['tau'], c2 + 'tau', 'hist:pn:solve-kwargs:setting:tau')
@@ -1179,8 +1181,8 @@ def solve_case(ctx, am, i):
             with cpu_limit(SOLVE_CASE_CPU):
                 pn.solve(x=x, disregistry=d.copy(), min_method=method, min_options=opts)
             ok = True
-        except CpuLimit as e:
-            rec.fail(f'a one- or two-sweep solve on at most 25 points finishes within {SOLVE_CASE_CPU} s of CPU time (normal: 1 - 15 s)', f'solve:cpu-limit:{method}', exception=e)
+        except CpuLimit:
+            rec.count(f'watchdog:solve:cpu-limit:{method}')      # watchdog, not a verdict (see above)
     if not ok:
         return
     e1 = float(pn.total_energy())
@@ -1320,8 +1322,8 @@ def run(ctx):
             try:
                 with cpu_limit(240):
                     fn(ctx, am, i)
-            except CpuLimit as e:
-                rec.fail(f'every {name} case finishes within 240 s of CPU time (normal: < 15 s)', f'{name}:cpu-limit', exception=e)
+            except CpuLimit:
+                rec.count(f'watchdog:{name}:cpu-limit')          # watchdog, not a verdict: the case is abandoned and counted
         rec.count('cpu_ms:' + name, int(1000 * (time.process_time() - t0)))
 
     for k, v in monitor.calls.items():
